@@ -37,6 +37,7 @@ type Engine struct {
 	loadErrs      []string
 	privateNext   bool
 	noLoopFrame   bool
+	gnnCache      map[string]bool
 }
 
 func (e *Engine) typeID(t types.Type) *Term {
@@ -349,4 +350,61 @@ func (e *Engine) instances(pkgPath, rel string) []*ssa.Function {
 	}
 	sort.Slice(out, func(i, j int) bool { return out[i].String() < out[j].String() })
 	return out
+}
+
+// isSpecFunc: functions defined in a zz_verif_spec.go file are pure specification functions.
+func (e *Engine) isSpecFunc(f *ssa.Function) bool {
+	if f == nil || !f.Pos().IsValid() {
+		return false
+	}
+	return filepath.Base(e.fset.Position(f.Pos()).Filename) == "zz_verif_spec.go"
+}
+
+// globalNonNil: package-level error variables initialised once with errors.New / fmt.Errorf and never
+// assigned again are non-nil.
+func (e *Engine) globalNonNil(pkg *ssa.Package, name string) bool {
+	key := pkg.Pkg.Path() + "." + name
+	if v, ok := e.gnnCache[key]; ok {
+		return v
+	}
+	if e.gnnCache == nil {
+		e.gnnCache = map[string]bool{}
+	}
+	g, ok := pkg.Members[name].(*ssa.Global)
+	res := false
+	if ok {
+		init := pkg.Func("init")
+		stores, good := 0, 0
+		var scan func(f *ssa.Function)
+		scan = func(f *ssa.Function) {
+			for _, b := range f.Blocks {
+				for _, in := range b.Instrs {
+					if s, ok := in.(*ssa.Store); ok && s.Addr == g {
+						stores++
+						if f == init {
+							if c, ok := s.Val.(*ssa.Call); ok {
+								if fn, ok := c.Call.Value.(*ssa.Function); ok {
+									switch fn.String() {
+									case "errors.New", "fmt.Errorf":
+										good++
+									}
+								}
+							}
+						}
+					}
+				}
+			}
+			for _, a := range f.AnonFuncs {
+				scan(a)
+			}
+		}
+		for _, m := range pkg.Members {
+			if f, ok := m.(*ssa.Function); ok {
+				scan(f)
+			}
+		}
+		res = stores == 1 && good == 1
+	}
+	e.gnnCache[key] = res
+	return res
 }
